@@ -30,7 +30,9 @@ ASSUMPTIONS = [
 ]
 RULE = ('fault sequences: programs as for C03/C04 with raise statements and rejected values planted in callback bodies, update keys, '
         'context bodies at every nesting depth; every top-level statement runs under try/except and afterwards the dispatcher must be '
-        'idle (flags off, queues empty); sibling statements must see identical flags. non-trivial = at least one callback ran')
+        'idle (flags off, queues empty, Event parameters False); sibling statements must see identical flags; every second case ends '
+        'with the probe of the property text (fresh changes-only watcher per parameter, changing / same-value / batched assignments, '
+        'Event trigger), judged like the rest of the program. non-trivial = at least one callback ran')
 COVERAGE_TARGETS = ['call:raised', 'stmt:update:raised', 'stmt:batch:raised', 'stmt:discard:raised', 'stmt:trigger:raised',
                     'stmt:set:raised', 'top:Boom', 'top:ValueError', 'stmt:updateCtx:raised']
 PROP = 'C05'
@@ -50,7 +52,28 @@ def cases(rng, tier, worker, nworkers):
             yield dict(json.load(open(f))['case'], prop=PROP)
     n = 1200 if tier == 'quick' else 240000 // nworkers
     for i in range(n):
-        yield D.gen_case(rng, PROP, faults=FAULTS or (i % 5 == 0), size=8 if i % 3 else 14)
+        c = D.gen_case(rng, PROP, faults=FAULTS or (i % 5 == 0), size=8 if i % 3 else 14)
+        yield with_probe(c) if i % 2 else c
+
+
+def with_probe(case):
+    """the property's own observation: after the faults of the program, the object must dispatch like a freshly
+    built one - a fresh changes-only watcher per parameter (empty callback), a changing assignment (one call,
+    true old/new), the same value again (no call), the same inside a batch (deferred, delivered once), an Event
+    parameter set to True (one call, reads False again).  Appended as ordinary statements, so model and oracle
+    judge them like the rest of the program."""
+    n = len(case['bounds'])
+    nb = len(case['bodies'])             # an index without a body: the callback does nothing
+    prog = list(case['program'])
+    for p in range(n):
+        w = {'id': 900 + p, 'cb': 900 + p, 'params': [p], 'onlychanged': True, 'queued': False, 'precedence': 0, 'body': nb + 50}
+        prog.append({'s': 'watch', 'w': w})
+        if p in case.get('events', []):
+            prog += [{'s': 'set', 'p': p, 'v': 1}, {'s': 'batch', 'body': [{'s': 'set', 'p': p, 'v': 1}]}]
+        else:
+            prog += [{'s': 'set', 'p': p, 'v': 4}, {'s': 'set', 'p': p, 'v': 5}, {'s': 'set', 'p': p, 'v': 5},
+                     {'s': 'batch', 'body': [{'s': 'set', 'p': p, 'v': 6}, {'s': 'set', 'p': p, 'v': 7}]}]
+    return dict(case, program=prog)
 
 
 def classify(case, impl, fail):
